@@ -95,9 +95,12 @@ theorem shape_resolveFork (s : St) (ra : Nat) (st : Core.SInfo) (c : Nat) (cl : 
   · split
     · exact Shape.refl s
     · rename_i d _
-      have hid := getClient_id hcl
-      exact Shape.setClient (cl := { cl with cons := insCons st.start ⟨d.root, d.ts.getD 0, valHash st.creator⟩ cl.cons, latest := st.start, frozen := false })
-        (old := cl) (by simpa [hid] using hcl) rfl
+      split
+      · exact Shape.refl s
+      · rename_i q _
+        have hid := getClient_id hcl
+        exact Shape.setClient (cl := { cl with cons := insCons st.start ⟨d.root, d.ts.getD 0, valHash q⟩ cl.cons, latest := st.start, frozen := false })
+          (old := cl) (by simpa [hid] using hcl) rfl
 
 theorem shape_validateNew (s : St) (ra : Nat) (st : Core.SInfo) (c : Nat) (cl : Client) : Shape s (validateNew s ra st c cl).1 := by
   unfold validateNew
